@@ -209,7 +209,7 @@ func (m *M) opAlign(t *rapid.T) {
 		t.Skip("no boundary near")
 	}
 	target := next + rapid.SampledFrom([]int{0, 0, 0, 1, -1}).Draw(t, "offset")
-	then := rapid.SampledFrom([]string{"clean", "reload", "save", "none"}).Draw(t, "then")
+	then := rapid.SampledFrom([]string{"clean", "reload", "save", "twin", "none"}).Draw(t, "then")
 	m.k.Op("align tip to %d then %s", target, then)
 	m.k.Class("tip_aligned_to_file_boundary")
 	cur := tip
@@ -235,6 +235,10 @@ func (m *M) opAlign(t *rapid.T) {
 	case "save":
 		if _, ok := m.actionsEnabled["save"]; ok {
 			m.opSave(t)
+		}
+	case "twin":
+		if _, ok := m.actionsEnabled["twin"]; ok {
+			m.opTwin(t)
 		}
 	}
 }
